@@ -168,7 +168,10 @@ func checkC02(c *ExecCase) (*ev.Failure, *execOutcome, int) {
 		if perr != nil {
 			return ev.Failf("opname", "service %s cannot pick the operation: %v", r.Service, perr), out, nsteps
 		}
-		isChild := len(sub.SelectionSet) == 1 && isNodeSelection(sub.SelectionSet[0]) && clientOp.Operation != ast.Subscription && !clientSelectsNodeRoot(clientOp)
+		// a child request is { node(id: $id) { ... } } with the gateway's own $id; a client's node(id:) root field
+		// carries a literal or one of the client's variables (ambiguous only if the client calls its variable id too)
+		isChild := len(sub.SelectionSet) == 1 && isNodeSelection(sub.SelectionSet[0]) && clientOp.Operation != ast.Subscription &&
+			(!clientSelectsNodeRoot(clientOp) || nodeArgIsIDVariable(sub.SelectionSet[0]) && !nodeRootWithIDVariable(clientOp))
 		if isChild && sub.Operation != ast.Query {
 			return ev.Failf("optype", "child request is a %s", sub.Operation), out, nsteps
 		}
@@ -248,6 +251,40 @@ func checkC02(c *ExecCase) (*ev.Failure, *execOutcome, int) {
 func isNodeSelection(sel ast.Selection) bool {
 	f, ok := sel.(*ast.Field)
 	return ok && f.Name == "node"
+}
+
+func nodeArgIsIDVariable(sel ast.Selection) bool {
+	f, ok := sel.(*ast.Field)
+	if !ok {
+		return false
+	}
+	a := f.Arguments.ForName("id")
+	return a != nil && a.Value != nil && a.Value.Kind == ast.Variable && a.Value.Raw == "id"
+}
+
+// nodeRootWithIDVariable: the client itself writes node(id: $id) at the root.
+func nodeRootWithIDVariable(op *ast.OperationDefinition) bool {
+	var walk func(ss ast.SelectionSet, depth int) bool
+	walk = func(ss ast.SelectionSet, depth int) bool {
+		for _, sel := range ss {
+			switch x := sel.(type) {
+			case *ast.Field:
+				if x.Name == "node" && nodeArgIsIDVariable(x) {
+					return true
+				}
+			case *ast.InlineFragment:
+				if depth < 6 && walk(x.SelectionSet, depth+1) {
+					return true
+				}
+			case *ast.FragmentSpread:
+				if x.Definition != nil && depth < 6 && walk(x.Definition.SelectionSet, depth+1) {
+					return true
+				}
+			}
+		}
+		return false
+	}
+	return walk(op.SelectionSet, 0)
 }
 
 func clientSelectsNodeRoot(op *ast.OperationDefinition) bool {
